@@ -378,6 +378,19 @@ def run_race(case, inject=None, after_complete_grace=True, collect_metrics=False
             return out
 
         patches = patches + [(driver.ThroughputCalculator, "calculate", recording_calculate)]
+        import inspect
+
+        real_add = driver.Sampler.add
+        add_signature = inspect.signature(real_add)
+        res.sampler_adds = []
+
+        def recording_add(self, *a, **kw):
+            # observation only: was the worker's sample queue full when this sample was handed in?
+            args = add_signature.bind(self, *a, **kw).arguments
+            res.sampler_adds.append((args["task"].name, args["client_id"], args["absolute_time"], self.q.full()))
+            return real_add(self, *a, **kw)
+
+        patches = patches + [(driver.Sampler, "add", recording_add)]
     with kernel.patched(*patches):
         try:
             if collect_metrics:
